@@ -20,7 +20,11 @@ EXPLANATION = (
     "R4 no symbol is registered with two different kinds by classes that can be co-present; R5 every template function that pastes rate/ODE/"
     "Jacobian expressions declares params, then deriveds, then the expressions, over a component list that contains the components those "
     "expressions may use, and NaunetData / constants come from the same enumerations; _collect_variable_items merges every component; R6 ODE "
-    "modifier factors of the bundled examples use registered identifiers only.")
+    "modifier factors of the bundled examples use registered identifiers only; R7 a name some texts rely on is registered on every path through "
+    "__init__; R10 a declaration loop declares every enumerated symbol -- no selecting filter / loop condition, and a pruning set handed over by "
+    "the renderer is computed from the FINAL statement list (not before the rate_modifier overrides are written into it); R11 identifiers of the "
+    "text the renderer itself writes around a rate (the temperature window `if (Tgas>=..)`) are registered by every reaction class, and -- the "
+    "thermal functions declaring thermal symbols only -- are unreachable for every ThermalProcess (its window attributes are fixed to -1.0).")
 ASSUMPTIONS = [
     "conformance to the SUNDIALS / Boost API is not decided",
     "identifiers inside user-supplied strings (KROME rate text, user modifiers) are out of scope",
@@ -141,6 +145,7 @@ def check(ctx):
     _r5(ctx, pkg)
     _r6(ctx, pkg, regs, protos, consts, universal)
     _r7(ctx, rm, pkg, regs)
+    _r11(ctx, pkg, regs, protos, consts, universal)
     # the index macros the expressions use are the ones the header defines: IDX_<alias> per species and IDX_ELEM_<element key>
     # per element, the same spelling at definition and use (shared with C09.R4)
     from .c09 import _r4_defs as macro_definitions
@@ -542,6 +547,66 @@ def _first_last(e):
     return e
 
 
+_SELECTING = {"select", "reject", "selectattr", "rejectattr", "slice", "batch", "first", "last", "random"}
+_KEEPING = {"list", "unique"}        # (the enumeration has one item per symbol already)
+
+
+def _r10_pruned(ctx, pkg, key, where, after, test, exprs):
+    """R10 -- a declaration loop declares EVERY item collect_variable_items enumerates, or prunes them by a set of used symbols that
+    was computed from the FINAL statements the same function pastes.  `after`: the filters applied to the enumeration, `test`: the
+    loop's own `if`.  Positive evidence: a built-in selecting filter / loop condition (declarations are dropped whatever the
+    expressions use); a pruning set taken from the statement list BEFORE the renderer's last writes into that list."""
+    rule, key = "R10", f"{key}:every declaration"
+    after = [f for f in after if f[0] not in _KEEPING]
+    if not after and test is None:
+        ctx.ok(rule, key, where, "every enumerated symbol is declared")
+        return
+    sel = [f[0] for f in after if f[0] in _SELECTING]
+    if sel or test is not None:
+        ctx.bad(rule, key, where, "every enumerated symbol is declared", expected="the unfiltered enumeration",
+                found=("filters " + ", ".join(sel)) if sel else f"loop condition `{J.show(test)}`")
+        return
+    # a filter of the package's own: which `ode.<field>` does it receive, and when was that field computed?
+    fields = [a[2] for f in after for a in list(f[1]) + [v for _, v in f[2]] if a[0] == "attr" and a[1] == ("name", "ode")]
+    names = ", ".join(f[0] for f in after)
+    if len(fields) != 1 or "." not in exprs:
+        ctx.unrec(rule, key, where, f"the enumeration of the declarations goes through `{names}`: cannot tell whether a declaration is dropped")
+        return
+    from ..odemodel import model as odemodel
+    from .c02 import dataclass_fields, _bind_args
+    fl = odemodel(ctx.tree).flow
+    call = None
+    for f in fl.facts:
+        if f.kind == "return" and f.value is not None:
+            v = f.value
+            if v[0] == "meth" and v[2] == "ODEContent":
+                call = (("call", None, v[3], v[4]), f.seq)
+            elif v[0] == "call" and ((v[1][0] == "attr" and v[1][2] == "ODEContent") or v[1] == ("global", "ODEContent")):
+                call = (v, f.seq)
+    args = _bind_args(dataclass_fields(pkg, "TemplateLoader.ODEContent"), call[0]) if call else {}
+    dep, stm = args.get(fields[0]), args.get(exprs.split(".", 1)[1])
+    if dep is None or stm is None or simp(stm)[0] != "acc":
+        ctx.unrec(rule, key, where, f"the declarations are pruned by `{names}(ode.{fields[0]})`: cannot trace that set / the pasted statements in _prepare_ode_content")
+        return
+    X = simp(stm)[1]
+    inits = [simp(f.value) for f in fl.facts if f.kind == "init" and f.target == X and f.value is not None]
+    dep = simp(dep)
+    reads = lambda v: any(x == ("acc", X) or x in inits for x in walk(v))
+    # when was the set computed?  at the local assignment that holds it, else where the ODEContent is built
+    binds = [(sq, ln) for nm, lst in fl.assigns.items() for val, loops, guards, ln, sq in lst if simp(val) == dep]
+    if not reads(dep):
+        ctx.unrec(rule, key, where, f"the declarations are pruned by `{names}(ode.{fields[0]})`, a set that is not visibly computed from the statements pasted here ({show(dep)[:80]})")
+        return
+    at = min(binds)[0] if binds else call[1]
+    later = [f for f in fl.facts if f.target == X and f.kind in ("store", "augstore", "append", "mutate", "remove") and f.seq > at]
+    if later:
+        ctx.bad(rule, key, where, f"the declarations are pruned by `{names}(ode.{fields[0]})`, computed" + (f" at line {min(binds)[1]}" if binds else "") +
+                f" from `{X}` BEFORE the statement list receives its final entries (line {later[0].line}: {show(simp(later[0].value))[:60] if later[0].value else later[0].kind}): "
+                "a symbol used only by such an entry is pasted but not declared", expected=f"the set computed from the final `{X}`", found=show(dep)[:100])
+    else:
+        ctx.unrec(rule, key, where, f"the declarations are pruned by `{names}(ode.{fields[0]})` computed from the final statements: whether the pruning keeps every used symbol is not decided")
+
+
 def _r5(ctx, pkg):
     n = 0
     for solver, rel, methods, funcs in SITES:
@@ -564,6 +629,7 @@ def _r5(ctx, pkg):
                         if cv and cv[0][1] and cv[0][1][0][0] == "const":
                             # the component list by ROLE: whatever is piped into collect_variable_items, `{% set %}` names resolved
                             seq.append((cv[0][1][0][1], base, off, it))
+                            _r10_pruned(ctx, pkg, f"{key}:{cv[0][1][0][1]}", (rel, it[5]), fs[fs.index(cv[0]) + 1:], it[7], exprs)
                         elif J.path(base) == exprs:
                             seq.append(("exprs", None, off, it))
                 kinds = [s[0] for s in seq]
@@ -926,6 +992,225 @@ def _r6(ctx, pkg, regs, protos, consts, universal):
     ctx.floor("R6", "example modifier factors", n, 4)
 
 
+# ------------------------------------------------------------------ R11  text the renderer itself writes around a rate
+
+TLOADER = "naunet/templateloader.py"
+TPROC = "naunet/thermalprocess.py"
+_C_WORDS = {"if", "else"}
+
+
+def _tri(test, attrs):
+    """three-valued truth of a Python test under known attribute values {attr name: constant} of the object it inspects"""
+    if isinstance(test, ast.Constant):
+        return bool(test.value)
+    if isinstance(test, ast.Attribute) and test.attr in attrs:
+        return bool(attrs[test.attr])
+    if isinstance(test, ast.UnaryOp) and isinstance(test.op, ast.Not):
+        v = _tri(test.operand, attrs)
+        return None if v is None else not v
+    if isinstance(test, ast.BoolOp):
+        vs = [_tri(x, attrs) for x in test.values]
+        if isinstance(test.op, ast.And):
+            return False if False in vs else (None if None in vs else True)
+        return True if True in vs else (None if None in vs else False)
+    if isinstance(test, ast.Compare) and len(test.ops) == 1:
+        def val(e):
+            if isinstance(e, ast.Constant):
+                return e.value
+            if isinstance(e, ast.UnaryOp) and isinstance(e.op, ast.USub) and isinstance(e.operand, ast.Constant):
+                return -e.operand.value
+            if isinstance(e, ast.Attribute) and e.attr in attrs:
+                return attrs[e.attr]
+            return _tri
+        a, b = val(test.left), val(test.comparators[0])
+        if a is _tri or b is _tri:
+            return None
+        try:
+            return {ast.Gt: lambda: a > b, ast.GtE: lambda: a >= b, ast.Lt: lambda: a < b, ast.LtE: lambda: a <= b, ast.Eq: lambda: a == b, ast.NotEq: lambda: a != b,
+                    ast.Is: lambda: a is b, ast.IsNot: lambda: a is not b}[type(test.ops[0])]()
+        except (KeyError, TypeError):
+            return None
+    return None
+
+
+def _r11(ctx, pkg, regs, protos, consts, universal):
+    """The renderer (`_assign_rates` and what it calls) writes C text of its own around each rate expression -- today the temperature
+    window `if (Tgas>=.. && Tgas<..) { .. }`.  Those statements are pasted into EvalRates (reactions: the identifier must be one every
+    reaction class registers) AND into EvalHeatingRates / EvalCoolingRates, which declare the symbols of the thermal processes only: an
+    identifier of the renderer's own text that ThermalProcess does not register must be unreachable for a thermal process, i.e. sit under
+    a condition on an attribute that every ThermalProcess instance fixes to a falsifying constant."""
+    tl = pkg.cls("TemplateLoader")
+    root = tl.methods.get("_assign_rates")
+    if root is None:
+        ctx.missing("R11", "_assign_rates", (TLOADER, 0), "TemplateLoader._assign_rates vanished")
+        return
+    ctx.saw(TLOADER, "TemplateLoader._assign_rates")
+    mod = pkg.modules[TLOADER]
+    mclasses = {c.name: c for c in mod.body if isinstance(c, ast.ClassDef)}
+    # functions reachable from _assign_rates inside the module (methods through self / cls / the class name, module functions, the
+    # methods of module classes it instantiates): more scope only means more text to account for
+    scope, todo = [], [root]
+    while todo:
+        f = todo.pop()
+        if any(f is g for g in scope):
+            continue
+        scope.append(f)
+        for c in ast.walk(f):
+            if not isinstance(c, ast.Call):
+                continue
+            fn_ = c.func
+            if isinstance(fn_, ast.Attribute) and isinstance(fn_.value, ast.Name) and fn_.value.id in ("self", "cls", "TemplateLoader"):
+                g = pkg.resolve("TemplateLoader", fn_.attr)[1]
+                if g is not None:
+                    todo.append(g)
+            elif isinstance(fn_, ast.Name) and (TLOADER, fn_.id) in pkg.functions:
+                todo.append(pkg.functions[(TLOADER, fn_.id)])
+            elif isinstance(fn_, ast.Name) and fn_.id in mclasses:
+                todo += [m for m in mclasses[fn_.id].body if isinstance(m, ast.FunctionDef)]
+    # what a thermal process is: constants / constructor parameters its __init__ stores, and the instances of the package
+    tp = pkg.cls("ThermalProcess")
+    init = tp.methods.get("__init__")
+    fixed, fed = {}, {}
+    if init is not None:
+        ctx.saw(TPROC, "ThermalProcess.__init__")
+        stores = {}
+        for m in tp.methods.values():
+            for n in ast.walk(m):
+                if isinstance(n, ast.Attribute) and isinstance(n.ctx, ast.Store) and isinstance(n.value, ast.Name) and n.value.id == "self":
+                    stores[n.attr] = stores.get(n.attr, 0) + 1
+        params = [a.arg for a in init.args.args[1:]]
+        for st in init.body:
+            if isinstance(st, ast.Assign) and len(st.targets) == 1 and isinstance(st.targets[0], ast.Attribute) and isinstance(st.targets[0].value, ast.Name) \
+                    and st.targets[0].value.id == "self" and stores.get(st.targets[0].attr) == 1:
+                v = st.value
+                if isinstance(v, ast.UnaryOp) and isinstance(v.op, ast.USub) and isinstance(v.operand, ast.Constant):
+                    fixed[st.targets[0].attr] = -v.operand.value
+                elif isinstance(v, ast.Constant):
+                    fixed[st.targets[0].attr] = v.value
+                elif isinstance(v, ast.Name) and v.id in params:
+                    fed[st.targets[0].attr] = v.id
+    # attributes of thermal processes assigned from outside the class make their value unknown
+    outside = {n.attr for f_, m in pkg.modules.items() for n in ast.walk(m) if isinstance(n, ast.Attribute) and isinstance(n.ctx, ast.Store)
+               and not (isinstance(n.value, ast.Name) and n.value.id == "self") and n.attr in set(fixed) | set(fed)}
+    instances = []
+    if fed and init is not None:
+        defaults = dict(zip([a.arg for a in init.args.args][len(init.args.args) - len(init.args.defaults):], init.args.defaults))
+        for f_, m in pkg.modules.items():
+            for c in ast.walk(m):
+                if isinstance(c, ast.Call) and ast.unparse(c.func).split(".")[-1] == "ThermalProcess":
+                    given = dict(zip(params, c.args))
+                    given.update({k.arg: k.value for k in c.keywords if k.arg})
+                    vals = {}
+                    for attr, p_ in fed.items():
+                        e = given.get(p_, defaults.get(p_))
+                        if isinstance(e, ast.UnaryOp) and isinstance(e.op, ast.USub) and isinstance(e.operand, ast.Constant):
+                            vals[attr] = -e.operand.value
+                        elif isinstance(e, ast.Constant):
+                            vals[attr] = e.value
+                    instances.append((f_, c.lineno, vals))
+    tdecl = {x.text for x in regs["ThermalProcess"]} | CMATH | protos | consts | {"y"}
+    # (should the thermal functions declare the reactions' symbols too, those are available there)
+    lists = []
+    for solver, rel, methods, funcs in SITES:
+        for fname in [f_ for f_ in funcs if f_ in ("EvalHeatingRates", "EvalCoolingRates")]:
+            sk = Skel(J.flatten(ctx.tree, rel, {"general.method": methods[0], "general.device": "cpu"}))
+            for it, off in sk.items_in(fname):
+                if it[0] == "for":
+                    base, fs = _source(sk.marks, it, it[2])
+                    if any(f_[0] == "collect_variable_items" and f_[1] and f_[1][0] == ("const", "params") for f_ in fs):
+                        lists.append(_terms(base))
+    if lists and all(t is not None and "reactions" in t for t in lists):
+        tdecl |= set(universal)
+    rdecl = set(universal) | CMATH | protos | consts | {"y", "k"}
+    parents = {}
+    n = 0
+    for f in scope:
+        for p_ in ast.walk(f):
+            for ch in ast.iter_child_nodes(p_):
+                parents[id(ch)] = p_
+        for node in ast.walk(f):
+            if not (isinstance(node, ast.Constant) and isinstance(node.value, str)):
+                continue
+            ids = [w for w in re.findall(r"[A-Za-z_]\w*", node.value) if w not in _C_WORDS]
+            if not ids:
+                continue
+            # where the text stands: not a docstring / message, and under which conditions
+            guards, x, skip = [], node, False
+            while id(x) in parents:
+                par = parents[id(x)]
+                if isinstance(par, ast.Expr) and par.value is x:
+                    skip = True       # docstring / bare string
+                if isinstance(par, (ast.Raise, ast.Assert)) or (isinstance(par, ast.Call) and ast.unparse(par.func).split(".")[0] in ("logging", "logger", "warnings", "print")):
+                    skip = True
+                if isinstance(par, ast.JoinedStr) and not any(v is x for v in par.values):
+                    skip = True       # a format spec
+                if isinstance(par, ast.FormattedValue):
+                    skip = True       # text inside a replacement field (a dict key, a separator argument)
+                if isinstance(par, ast.Call) and x is not par.func:
+                    # an argument: text only when handed to str.join / str.format / a list being built, or to a function of this scope
+                    fn_ = par.func
+                    local = (isinstance(fn_, ast.Attribute) and isinstance(fn_.value, ast.Name) and fn_.value.id in ("self", "cls", "TemplateLoader") and pkg.resolve("TemplateLoader", fn_.attr)[1] is not None) \
+                        or (isinstance(fn_, ast.Name) and ((TLOADER, fn_.id) in pkg.functions or fn_.id in mclasses))
+                    if not (local or (isinstance(fn_, ast.Attribute) and fn_.attr in ("join", "format", "append", "extend", "insert"))
+                            or (isinstance(fn_, ast.Name) and fn_.id in ("list", "tuple", "filter", "str"))):
+                        skip = True
+                if (isinstance(par, ast.Subscript) and x is par.slice) or (isinstance(par, ast.Compare)) or (isinstance(par, ast.Dict) and any(x is k for k in par.keys)):
+                    skip = True       # a key / an operand of a test
+                if isinstance(par, ast.IfExp) and x is not par.test:
+                    guards.append((par.test, x is par.body))
+                elif isinstance(par, ast.If) and x is not par.test:
+                    guards.append((par.test, any(x is b for b in par.body)))
+                elif isinstance(par, ast.comprehension) and x is not par.iter and x is not par.target:
+                    pass
+                elif isinstance(par, (ast.ListComp, ast.GeneratorExp, ast.SetComp, ast.DictComp)):
+                    for g in par.generators:
+                        guards += [(t, True) for t in g.ifs if t is not x]
+                x = par
+            if skip:
+                continue
+            is_text = isinstance(parents.get(id(node)), ast.JoinedStr)      # a literal part of an f-string: certainly output text
+            used = {a.attr for t, _ in guards for a in ast.walk(t) if isinstance(a, ast.Attribute)}
+            for w in ids:
+                n += 1
+                key = f"{f.name}:`{w}` in {node.value.strip()[:24]!r}"
+                where = (TLOADER, node.lineno)
+                if w not in rdecl:
+                    if is_text:
+                        regs.judge(ctx, False, "R11", key + ":reactions", where, f"`{w}` is written by the renderer into the rate statements of EvalRates but is not a symbol every reaction class registers")
+                    elif w not in tdecl:
+                        ctx.unrec("R11", key + ":reactions", where, f"the string {node.value[:30]!r} may be text the renderer writes around a rate; `{w}` is not a symbol every reaction class registers")
+                    continue
+                if w in tdecl:
+                    ctx.ok("R11", key, where, f"`{w}` is declared wherever the rate statements are pasted")
+                    continue
+                known = {a: v for a, v in fixed.items() if a not in outside}
+                if any(_tri(t, known) is (not pol) for t, pol in guards):
+                    ctx.ok("R11", key, where, f"`{w}` is written only under a condition no thermal process satisfies ({', '.join(f'{a} = {v}' for a, v in sorted(known.items()))})")
+                    continue
+                hit = None
+                decided = bool(instances) and not (set(fed) & outside)
+                for f_, ln, vals in instances:
+                    ts = [_tri(t, {**known, **vals}) for t, pol in guards]
+                    if guards and all(v is not None and v == pol for v, (t, pol) in zip(ts, guards)):
+                        hit = hit or (f_, ln, vals)
+                    elif not any(v is not None and v != pol for v, (t, pol) in zip(ts, guards)):
+                        decided = False
+                if hit is not None:
+                    hit = (hit[0], hit[1], {a: v for a, v in hit[2].items() if a in used})
+                if not is_text and (hit is not None or not guards):
+                    ctx.unrec("R11", key, where, f"the string {node.value[:30]!r} may be text the renderer writes around the rate of a thermal process, whose functions do not declare `{w}`")
+                elif hit is not None or not guards:
+                    ctx.bad("R11", key, where, f"the renderer writes `{w}` into the rate statements" + (f" of the thermal process built at {hit[0]}:{hit[1]} ({hit[2]})" if hit else " of every process") +
+                            f": EvalHeatingRates / EvalCoolingRates declare only what ThermalProcess registers ({sorted(x.text for x in regs['ThermalProcess'])}), `{w}` is undeclared there",
+                            expected="thermal processes without the renderer's temperature window (temp_min = temp_max = -1.0), or the symbol registered by ThermalProcess",
+                            found=f"{ast.unparse(guards[0][0])[:60]} holds for that process" if hit else "unconditional text")
+                elif decided:
+                    ctx.ok("R11", key, where, f"`{w}` is written only under a condition none of the {len(instances)} thermal processes of the package satisfies")
+                else:
+                    ctx.unrec("R11", key, where, f"`{w}` is written by the renderer under {[ast.unparse(t)[:50] for t, _ in guards]}: cannot tell whether a thermal process (whose functions do not declare `{w}`) can satisfy that")
+    ctx.floor("R11", "identifiers written by the renderer around a rate", n, 2)
+
+
 HH = "naunet/grains/hh93grain.py"
 RR = "naunet/grains/rr07grain.py"
 RATES = "naunet/templates/cvode/src/naunet_rates.cpp.j2"
@@ -1008,7 +1293,46 @@ MUTANTS = [
         {"file": RR, "old": '        self.register("photon_desorption_option", (f"opt_uvd{group}", 1.0, vt.param))\n        self.register("H2_desorption_option", (f"opt_h2d{group}", 1.0, vt.param))\n', "new": '        for name, stem, default in self._switches:\n            self.register(name, (f"{stem}{group}", default, vt.param))\n'},
         {"file": RR, "old": '    model = "rr07"\n', "new": '    model = "rr07"\n    _switches = (("photon_desorption_option", "opt_uvd", 1.0),)\n'}], "rules": ["R1"]},
 ]
+TL = "naunet/templateloader.py"
+_DERIVEDS_LOOP = '    {% set components = network.reactions + network.grains -%}\n    {% for key, value in components | collect_variable_items("deriveds") -%}\n'
+
+
+def _pruned_by_use(when):
+    """EvalRates declares only the derived quantities named in ode.used, a set of identifiers taken from the rate statements
+    `when` = "before" / "after" the rate_modifier overrides are written into them"""
+    take = "        used = set(__import__('re').findall(r'[A-Za-z_]\\w*', ' '.join(rateeqns)))\n"
+    loop = '        for idx, reac in enumerate(reactions):\n            for key, value in rate_modifier.items():\n                if key == reac.idxfromfile:\n                    logging.warning(f"Overwirte the rate of: `{reac}` with {value}")\n                    rateeqns[idx] = f"{rate_sym}[{idx}] = {value};"\n'
+    return [
+        {"file": TL, "old": "        jac: TemplateLoader.Jacobian\n\n    @dataclass\n    class RenormContent:", "new": "        jac: TemplateLoader.Jacobian\n        used: set = None\n\n    @dataclass\n    class RenormContent:"},
+        {"file": TL, "old": loop, "new": (take + loop) if when == "before" else (loop + take)},
+        {"file": TL, "old": "        return self.ODEContent(rateeqns, hrateeqns, crateeqns, fex, jac)", "new": "        return self.ODEContent(rateeqns, hrateeqns, crateeqns, fex, jac, used)"},
+        {"file": RATES, "old": _DERIVEDS_LOOP, "new": _DERIVEDS_LOOP.replace('("deriveds") -%}', '("deriveds") | only_used(ode.used) -%}')},
+    ]
+
+
+MUTANTS += [
+    # R10: declarations dropped by a built-in selection
+    {"name": "deriveds-loop-selects", "file": RATES, "old": _DERIVEDS_LOOP, "new": _DERIVEDS_LOOP.replace('("deriveds") -%}', '("deriveds") | selectattr(1) -%}'), "rules": ["R10"]},
+    {"name": "params-loop-conditional", "file": FEX, "old": '    {% for key, _ in components | collect_variable_items("params") -%}\n', "new": '    {% for key, _ in components | collect_variable_items("params") if key != "mu" -%}\n', "count": 2, "rules": ["R10"]},
+    # R10: declarations pruned by the symbols the rate statements use, collected BEFORE the rate_modifier overrides are written
+    {"name": "deriveds-pruned-by-stale-use-set", "edits": _pruned_by_use("before"), "rules": ["R10"]},
+]
+MUTANTS += [
+    # R11: a cooling process with a temperature window -- the renderer's `if (Tgas>=..)` lands in EvalCoolingRates, which has no Tgas
+    {"name": "thermal-process-with-temperature-window", "edits": [
+        {"file": TPROC, "old": "        rate: str,\n    ) -> None:", "new": "        rate: str,\n        temp_min: float = -1.0,\n    ) -> None:"},
+        {"file": TPROC, "old": "        self.temp_min = -1.0\n", "new": "        self.temp_min = temp_min\n"},
+        {"file": TPROC, "old": 'HeIIRecombinationCooling = ThermalProcess(["He+", "e-"], "1.55e-26 * pow(Temp, 0.3647)")', "new": 'HeIIRecombinationCooling = ThermalProcess(["He+", "e-"], "1.55e-26 * pow(Temp, 0.3647)", temp_min=10.0)'}], "rules": ["R11"]},
+    {"name": "thermal-process-window-constant-on", "file": TPROC, "old": "        self.temp_max = -1.0\n", "new": "        self.temp_max = 1.0e9\n", "rules": ["R11"]},
+    {"name": "renderer-window-on-dust-temperature", "file": TLOADER, "old": 'f"Tgas<{r.temp_max}" if r.temp_max > 0', "new": 'f"Tdust<{r.temp_max}" if r.temp_max > 0', "rules": ["R11"]},
+]
 BENIGN = [
+    {"name": "thermal-process-window-parameters-unused", "edits": [
+        {"file": TPROC, "old": "        rate: str,\n    ) -> None:", "new": "        rate: str,\n        temp_min: float = -1.0,\n    ) -> None:"},
+        {"file": TPROC, "old": "        self.temp_min = -1.0\n", "new": "        self.temp_min = temp_min\n"}]},
+    {"name": "renderer-windows-in-helper", "edits": [
+        {"file": TLOADER, "old": '        ltranges = [f"Tgas>={r.temp_min}" if r.temp_min > 0 else "" for r in reactions]\n', "new": '        ltranges = [self._lower_bound(r) for r in reactions]\n'},
+        {"file": TLOADER, "old": "    def _assign_rates(\n", "new": '    def _lower_bound(self, r):\n        if r.temp_min > 0:\n            return f"Tgas>={r.temp_min}"\n        return ""\n\n    def _assign_rates(\n'}]},
     {"name": "component-list-variable-renamed", "file": RATES, "old": "components", "new": "providers", "count": 12},
     {"name": "component-list-inlined", "file": RATES, "old": "    {% set components = network.reactions + network.grains -%}\n    {% for key, _ in components | collect_variable_items(\"params\") -%}", "new": "    {% for key, _ in (network.reactions + network.grains) | collect_variable_items(\"params\") -%}"},
     {"name": "leeds-register-in-both-arms", "file": "naunet/reactions/leedsreaction.py", "old": '        self.register("radiation_field", ("G0", 1.0, vt.param))\n', "new": '        if self.rtype == 4:\n            self.register("radiation_field", ("G0", 1.0, vt.param))\n        else:\n            self.register("radiation_field", ("G0", 1.0, vt.param))\n'},
